@@ -5,6 +5,7 @@ import (
 	"errors"
 	"fmt"
 	"io"
+	"io/ioutil"
 	"runtime"
 	"strings"
 	"sync"
@@ -239,7 +240,7 @@ func (r *chunkReader) WriteTo(writer io.Writer) (n int64, err error) {
 		wg.Add(1)
 		i := int64(index) * int64(r.leafSize-r.truncation)
 		concurrencyControl <- struct{}{}
-		go func(writeAt int64, writer io.WriterAt, key Key, cafs storage.Store, wg *sync.WaitGroup) {
+		go func(index int, writeAt int64, writer io.WriterAt, key Key, cafs storage.Store, wg *sync.WaitGroup) {
 			defer func() {
 				<-concurrencyControl
 				wg.Done()
@@ -253,6 +254,32 @@ func (r *chunkReader) WriteTo(writer io.Writer) (n int64, err error) {
 				w:      writer,
 				offset: writeAt,
 			}
+			if r.withVerifyHash {
+				// check the leaf against its key before any of its bytes reaches the destination
+				data, erd := ioutil.ReadAll(rdr)
+				_ = rdr.Close()
+				if erd != nil {
+					errC <- erd
+					return
+				}
+				nodeOffset, isLastNode := index+1, false
+				if index == len(r.keys)-1 && uint32(len(data)) != r.leafSize {
+					// same checksumming scheme as Read: the trailing partial leaf is the last node
+					nodeOffset--
+					isLastNode = true
+				}
+				if erv := r.verifyHash(key, data, nodeOffset, isLastNode); erv != nil {
+					errC <- erv
+					return
+				}
+				n, erw := w.Write(data)
+				if erw != nil {
+					errC <- erw
+					return
+				}
+				writtenC <- int64(n)
+				return
+			}
 			// TODO(fred): nice - io.CopyBuffer is probably better to get the copy working buffer aligned to leaf buffers
 			written, err := io.Copy(w, rdr) // io.WriteAt is expected to be thread safe.
 			if err != nil {
@@ -260,7 +287,7 @@ func (r *chunkReader) WriteTo(writer io.Writer) (n int64, err error) {
 				return
 			}
 			writtenC <- written
-		}(i, w, key, r.fs, &wg)
+		}(index, i, w, key, r.fs, &wg)
 	}
 	var count int
 	var written int64
